@@ -2,6 +2,7 @@ package sim
 
 import (
 	"database/sql"
+	"os"
 	"reflect"
 	"testing"
 	"time"
@@ -16,6 +17,10 @@ func nowWall() int64 { return time.Now().Unix() }
 
 // quietLogs raises the node's log level: log output is never part of the event log.
 func quietLogs() {
+	if lv := os.Getenv("VERIF_NODELOG"); lv != "" {
+		log.Init(log.Config{Environment: log.EnvironmentProduction, Level: lv, Outputs: []string{"stderr"}})
+		return
+	}
 	log.Init(log.Config{Environment: log.EnvironmentProduction, Level: "fatal", Outputs: []string{"/dev/null"}})
 }
 
